@@ -65,9 +65,11 @@ Oracle (clause -> sentence of the statement):
 Deviations from DESIGN §C19: (1) "dispatch-first-receipt" is checked although the statement only says "at most
 once" (the listed mutant "track_reliable checks after append" is invisible otherwise) -- it has its own clause.
 (2) Time: the cadence/fail clauses allow a lateness of one resend-poll period (0.5 s, HippoClient._attempt_resends)
-because the statement does not fix the poll granularity.  (3) When the first search finds violations, a second search
-runs with exactly those (clause, site) pairs muted so that histories *behind* them are still explored (the explorer
-never extends a violating history); the muted pairs are listed in coverage_extra.  (4) Alphabet economies listed
+because the statement does not fix the poll granularity.  (3) The explorer never extends a violating history.  So per cfg a first
+search (all clauses, to the quick horizon) names the (clause, site) pairs failing on this tree, and a second search runs to
+the full horizon with exactly those pairs muted (all other clauses armed), so histories *behind* a known violation are
+still explored; muted pairs are listed in coverage_extra.  A pair that first shows up in the second search is reported
+but (as always) not extended.  (4) Alphabet economies listed
 above (one kind out of order, one duplicate carrier, MAX_SR/MAX_SU, probe tick) keep depth 7 inside the budget.
 (5) HippoClientProtocol.__init__ re-parses message.xml per instance; worlds share one parsed (read-only) table.
 """
@@ -104,6 +106,7 @@ F_ZERO, F_REL, F_RESENT, F_ACK = 0x80, 0x40, 0x20, 0x10
 EPS = 1e-6
 POLL_SLACK = 0.5  # HippoClient._attempt_resends sleeps 0.5 s between polls; lateness up to one poll is not a defect
 MAX_SR, MAX_SU = 2, 1
+QUICK_DEPTH = 5
 BUDGET = next(f.default for f in dataclasses.fields(ReliableResendInfo) if f.name == "tries_left")
 NAME = {"chat": "ChatFromSimulator", "ping": "StartPingCheck"}
 
@@ -203,6 +206,13 @@ def _shared_message_dot_xml(*args, **kwargs):
 
 if getattr(hippo_client_mod.MessageDotXML, "__name__", "") != "_shared_message_dot_xml":
     hippo_client_mod.MessageDotXML = _shared_message_dot_xml
+
+# Message.__init__ stats templates.py and re-imports it when its mtime moved (a development convenience).  Other agents
+# commit to the shared /repo while checks run; a reload (or the file being absent for an instant) in the middle of a
+# search would be nondeterminism the harness does not own -> the templates loaded at start-up stay in force.
+import hippolyzer.lib.base.message.message as _message_mod  # noqa: E402
+
+_message_mod.maybe_reload_templates = lambda: None
 
 
 class World:
@@ -621,7 +631,7 @@ class Harness:
 
 def run(run: Run):
     quick = run.tier == "quick"
-    depth = 5 if quick else 7
+    depth = QUICK_DEPTH if quick else 7
     devb = 3
     run.rule = (
         "explicit-state BFS over {peer datagram id 1..3 x chat|ping x reliable|unreliable x RESENT x defer-tasks, peer acks "
@@ -638,6 +648,8 @@ def run(run: Run):
         f"cadence and failure time are allowed to be late by one resend-poll period ({POLL_SLACK}s); never early",
         f"retry budget {BUDGET} read from ReliableResendInfo.tries_left default, interval from Circuit.resend_every",
         "outgoing datagrams are read with an independent header/PacketAck decoder; incoming ones are encoded by hmc.refwire",
+        "harness-side patches of the library: MessageDotXML() memoized (read-only table), Message's templates.py mtime "
+        "reload disabled (the shared /repo is committed to while checks run)",
     ]
     run.assumptions.append(
         f"at most {MAX_SR} send_reliable and {MAX_SU} unreliable client sends per history; subscriber configurations: "
@@ -650,12 +662,16 @@ def run(run: Run):
     for cfg in ("solo", "shared", "prehandshake"):
         n0, keys0 = len(run.violations), dict(run._viol_keys)
         d = depth if cfg != "prehandshake" else depth - 1
-        explore.bfs(run, Harness(cfg), depth=d, dev_bound=devb, label=f"cfg={cfg} all-clauses ")
+        # pass 1 (all clauses) runs to the quick horizon: it names the (clause, site) pairs that fail on this tree.
+        # The explorer never extends a violating history, so pass 2 re-explores to the full horizon with exactly those
+        # pairs muted (every other clause stays armed): what lies *behind* a known violation is still searched.
+        d1 = min(d, QUICK_DEPTH if cfg != "prehandshake" else QUICK_DEPTH - 1)
+        explore.bfs(run, Harness(cfg), depth=d1, dev_bound=devb, label=f"cfg={cfg} all-clauses ")
         found = sorted(k for k, n in run._viol_keys.items() if n > keys0.get(k, 0))
-        if found:
-            # second pass: the explorer never extends a violating history, so explore what lies behind the ones found
+        if found or d > d1:
             explore.bfs(run, Harness(cfg, mute=found), depth=d, dev_bound=devb,
-                        label=f"cfg={cfg} behind-found-violations ")
+                        label=f"cfg={cfg} " + ("behind-found-violations " if found else "all-clauses-full-depth "))
+        if found:
             muted_all[cfg] = [list(f) for f in found]
         for v in run.violations[n0:]:
             v["witness"]["cfg"] = cfg
